@@ -285,6 +285,28 @@ func suiteC01(s *Suite, rng *Rng, tier string) {
 			p.AResponses[i] = rng.Bits(int(kp.Pk.Params.LmCommit))
 			run("disclosed-to-hidden", p, false)
 		}
+		// forgery over the error path: with A not invertible modulo N the verifier cannot reconstruct the commitment; a
+		// verifier that loses that error hashes no contributions at all, so the prover sets the challenge to the hash of
+		// (context, nonce) alone and reports whatever it likes. Every entry point must reject (no valid signature has such an A).
+		if !withNonrev {
+			for k, a := range []*gbig.Int{bi(0), cp(kp.Pk.N), cp(kp.Sk.P)} {
+				p := cloneProofD(honest)
+				p.A = a
+				for i, v := range p.ADisclosed {
+					p.ADisclosed[i] = new(gbig.Int).Add(v, bi(1))
+					break
+				}
+				p.C = gabi.VerifCreateChallenge(ctx, nonce, nil, issig)
+				kind := fmt.Sprintf("forged-over-error-path:%d", k)
+				single := cloneProofD(p)
+				accList := run(kind, p, false)
+				_, _, accSingle := catchBool(func() bool { return single.Verify(kp.Pk, ctx, nonce, issig) })
+				if accList || accSingle {
+					s.Violate("C01:forged-proof-accepted", fmt.Sprintf("a disclosure proof whose A is not invertible modulo N, with the challenge computed over no contributions, is accepted (list=%v single=%v)", accList, accSingle),
+						L{kind, dumpPk(kp.Pk), dumpProofD(single, kp.Pk), ctx, nonce, issig})
+				}
+			}
+		}
 		// pairwise alterations
 		for k := 0; k < 3; k++ {
 			p := cloneProofD(honest)
